@@ -144,17 +144,141 @@ def run_one(I, path_fn, prefix, arg, stats):
     return res, w.alts
 
 
+class Forker:
+    """process-level forking at two-sided branches: the child continues the untaken side from the current interpreter
+    state (no re-execution of the shared prefix).  Bounded by a semaphore; when no slot is free the branch is recorded
+    for prefix replay as before."""
+
+    def __init__(self):
+        self.sem = None
+        self.children = []
+        self.child_mode = False
+        self.just_forked = False
+        self.dir = None
+        self.enabled = os.environ.get('MSYM_FORK', '1') != '0'
+        self.sync_depth = 0
+        self.max_sync = int(os.environ.get('MSYM_SYNC_DEPTH', '48'))
+        self.holds_slot = False
+        self.crashed = 0
+
+    def try_fork(self):
+        """returns True in the new child, False in the parent / when not forking"""
+        if not self.enabled or self.sem is None or self.dir is None:
+            return None
+        got = self.sem.acquire(block=False)
+        if not got and self.sync_depth >= self.max_sync:
+            return None
+        sys.stdout.flush()
+        sys.stderr.flush()
+        pid = os.fork()
+        if pid == 0:
+            self.children = []
+            self.child_mode = True
+            self.just_forked = True
+            self.holds_slot = got
+            self.crashed = 0
+            if not got:
+                self.sync_depth += 1
+            import native as _n
+            _n._D[0] = None
+            return True
+        if got:
+            self.children.append(pid)
+        else:
+            # no free slot: run the child's subtree to completion first (shares the executed prefix, no replay)
+            try:
+                _, st = os.waitpid(pid, 0)
+                if st != 0:
+                    self.crashed += 1
+            except ChildProcessError:
+                pass
+        return False
+
+    def wait_children(self):
+        crashed = self.crashed
+        self.crashed = 0
+        for pid in self.children:
+            try:
+                _, st = os.waitpid(pid, 0)
+                if st != 0:
+                    crashed += 1
+            except ChildProcessError:
+                pass
+        self.children = []
+        return crashed
+
+    def finish_child(self, results, stats):
+        import pickle
+        crashed = self.wait_children()
+        try:
+            with open(os.path.join(self.dir, '%d.pkl' % os.getpid()), 'wb') as f:
+                pickle.dump((results, (stats.queries, stats.solver_s, stats.branches, stats.funcs, stats.models, stats.steps), crashed), f)
+        finally:
+            if self.holds_slot:
+                self.sem.release()
+            os._exit(0)
+
+    def collect(self):
+        import pickle
+        crashed = self.wait_children()
+        out = []
+        sts = []
+        if self.dir and os.path.isdir(self.dir):
+            for fn in os.listdir(self.dir):
+                p = os.path.join(self.dir, fn)
+                try:
+                    with open(p, 'rb') as f:
+                        r, st, c = pickle.load(f)
+                    out.extend(r)
+                    sts.append(st)
+                    crashed += c
+                except Exception:
+                    crashed += 1
+                os.remove(p)
+        if crashed:
+            pr = PathResult()
+            pr.status = 'unsupported'
+            pr.detail = '%d forked exploration process(es) crashed' % crashed
+            out.append(pr)
+        return out, sts
+
+
+FORK = Forker()
+_interp.FORKER[0] = FORK
+
+
 def explore_subtree(I, path_fn, prefix, arg, budget, stats, on_panic=None):
     """DFS below `prefix` for at most `budget` paths; returns (results, leftover prefixes)"""
+    FORK.dir = os.path.join(BUILD, 'forks', str(os.getpid()))
+    os.makedirs(FORK.dir, exist_ok=True)
     work = [prefix]
     results = []
-    while work and len(results) < budget:
+    while work and (len(results) < budget or FORK.child_mode):
         p = work.pop()
         res, alts = run_one(I, path_fn, p, arg, stats)
+        if FORK.just_forked:
+            # we are a freshly forked child: our own subtree only
+            FORK.just_forked = False
+            results = []
+            work = []
         if res.status == 'panic' and on_panic is not None:
             on_panic(I, res)
         results.append(res)
         work.extend(alts)
+    if FORK.child_mode:
+        FORK.finish_child(results, stats)
+    extra, sts = FORK.collect()
+    results.extend(extra)
+    for st in sts:
+        q, s, b, funcs, models, steps = st
+        stats.queries += q
+        stats.solver_s += s
+        stats.branches += b
+        stats.steps += steps
+        for k, v in funcs.items():
+            stats.funcs[k] = stats.funcs.get(k, 0) + v
+        for k, v in models.items():
+            stats.models[k] = stats.models.get(k, 0) + v
     return results, work
 
 
@@ -241,6 +365,8 @@ def explore(fn_module, fn_name, args, jobs=None, budget=40, max_paths=None, dead
     ex = Exploration()
     jobs = jobs or int(os.environ.get('MSYM_JOBS', '0')) or min(16, os.cpu_count() or 1)
     tasks = [([], a, budget) for a in args]
+    if FORK.sem is None:
+        FORK.sem = mp.get_context('fork').BoundedSemaphore(int(os.environ.get('MSYM_FORK_SLOTS', '0')) or max(2, (os.cpu_count() or 2)))
     if jobs == 1:
         _worker_init(fn_module, fn_name)
         while tasks:
